@@ -25,7 +25,7 @@ def run(ctx) -> None:
     ctx.rule("a.length-field", "_length is stored only by Table.__init__ (from the first column) and __len__ returns it", 2)
     ctx.rule("b.write-keeps-length", "Vector.__setitem__ materialises list(<old storage>) and only ever assigns single positions "
                                      "of it; _promote rebuilds from ALL elements (no filter): a column never changes length", 2)
-    ctx.rule("c.uniform-rows", "row slices / masks / index vectors map the same key over all columns (as C07.e)", 4)
+    ctx.rule("c.uniform-rows", "row slices / masks / index vectors map the same key over all columns (as C07.e)", 2)
     ctx.rule("d.row-view", "Row snapshots [col._underlying for col in table._underlying] (unfiltered, in order, straight from the "
                            "table) and every Row accessor indexes that snapshot with the row index; iteration yields rows 0..len-1", 4)
     ctx.rule("e.structural-ops", ">> keeps the existing columns first and untouched, << appends per column over zip(strict) after "
